@@ -36,6 +36,10 @@ class Violation(Exception):
         self.replay = replay
 
 
+class _StopShrink(BaseException):
+    pass
+
+
 class Discard(Exception):
     """The generated case is outside the property's domain (counted, never a violation)."""
 
@@ -134,7 +138,8 @@ def hyp_search(
     deadline: Optional[float] = None,
     shrink: bool = True,
     max_rounds: int = 4,
-    stateful_steps: Optional[int] = None,
+    key_fn: Optional[Callable[[Any], str]] = None,
+    shrink_budget: int = 120,
 ):
     """Run `body(case)` over `strategy`.  body raises Violation / Discard, or returns.
     After a violation is found (and shrunk) the search continues with that root-cause key
@@ -148,9 +153,19 @@ def hyp_search(
     while remaining > 0 and rnd < max_rounds:
         last: Dict[str, Any] = {}
         executed = [0]
+        failing: Dict[str, Violation] = {}  # bounded shrinking: cache of failing cases by key
+        since_fail = [0]
 
         def wrapped(case):
-            if deadline is not None and time.time() > deadline:
+            k = key_fn(case) if key_fn is not None else None
+            if k is not None and k in failing:
+                last["v"] = failing[k]
+                raise failing[k]
+            if failing and key_fn is not None:
+                since_fail[0] += 1
+                if since_fail[0] > shrink_budget:
+                    raise _StopShrink()  # shrink budget used up: keep the smallest failing case so far
+            if deadline is not None and time.time() > deadline and not failing:
                 stats.inconclusive = True
                 return
             executed[0] += 1
@@ -162,6 +177,10 @@ def hyp_search(
                 if v.key in suppressed:
                     suppressed[v.key] += 1
                     return
+                if failing and v.key != next(iter(failing.values())).key:
+                    return  # keep the shrink on one root cause
+                if k is not None:
+                    failing[k] = v
                 last["v"] = v
                 raise
 
@@ -181,6 +200,11 @@ def hyp_search(
         try:
             test()
             remaining = 0
+        except _StopShrink:
+            v = last["v"]
+            stats.violation(v.key, v.what, v.replay)
+            suppressed[v.key] = 0
+            remaining -= executed[0]
         except Violation:
             v = last["v"]
             stats.violation(v.key, v.what, v.replay)
